@@ -4,7 +4,7 @@
 From Coq Require Import List NArith Bool Arith Sorted.
 From Coq Require Import Strings.Byte.
 Require Import BS.Bytes BS.Common BS.Api BS.Layout BS.Format BS.FormatFacts BS.Spec BS.SpecStep.
-Require Import BS.FS BS.FSFacts BS.Meta BS.MetaFacts BS.Header BS.Reader BS.ReaderFacts BS.Index BS.Data BS.DataFacts BS.Seek BS.Series BS.SeriesFacts BS.ReadAllFacts BS.TotalFacts BS.ExtractFacts BS.OpenFacts.
+Require Import BS.FS BS.FSFacts BS.Meta BS.MetaFacts BS.Header BS.Reader BS.ReaderFacts BS.Index BS.Data BS.DataFacts BS.Seek BS.Series BS.SeriesFacts BS.ReadAllFacts BS.TotalFacts BS.ExtractFacts BS.HeaderFacts BS.OpenFacts.
 Import ListNotations.
 
 
@@ -15,8 +15,8 @@ Import ListNotations.
    itself: no file is rewritten, truncated, created or removed). By the theorems of C01, C02, C10, C12, C13, C14
    - all stated for any handle under RepH - every read and accessor then answers as before the close.
    Holds for any list of lines and any payload size, under three conditions whose status is:
-     (a) the header parser recognises the header in the file: proved for the library's own preamble in C17_header_roundtrip
-         when present, otherwise a hypothesis on the header bytes only;
+     (a) the header parser recognises the header in the file: proved for the library's own preamble, every payload size and
+         every user header (C04_reopen_own below, C17_header_parse);
      (b) tail_clean: the tail check of FileWithInlineMeta::new sees no pair of marker slots in the last K slots. Proved
          for payload sizes >= 4 (C04_tail_clean_p4). For payload sizes 0..3 it fails exactly for the known finding D6
          (0xFFFF words in the continuation slots of the last section), see C04_open_intact_refuted;
@@ -44,6 +44,22 @@ Theorem C04_last_meta_short : forall p l, wf_series p l -> (len (encode p l) <= 
   last_meta_timestamp p (encode p l) = Ok (full_after p None l).
 Proof. exact last_meta_short. Qed.
 Print Assumptions C04_last_meta_short.
+
+(* the same with the header the library itself wrote: condition (a) is gone *)
+Theorem C04_reopen_own : forall p fs s uhdr name popt hdropt cb l,
+  let header := params_to_text BSgen.Consts.version (N.of_nat p) ++ uhdr in
+  RepH fs s p (outer header) (outer []) l ->
+  of_name (d_file (s_data s)) = name ++ ext_data -> of_name (ix_file (d_index (s_data s))) = name ++ ext_index ->
+  (len header <= 65535)%N -> (len (encode p l) < 2^64)%N -> (N.of_nat p < 2^64)%N ->
+  (popt = None \/ popt = Some (N.of_nat p)) ->
+  (l = [] \/ tail_clean p (encode p l)) ->
+  last_meta_timestamp p (encode p l) = Ok (full_after p None l) ->
+  match hdropt with HdrIs e => e = uhdr | HdrAny => True end ->
+  exists s', builder_open name popt hdropt [] cb fs = (fs, Ok (s', uhdr))
+    /\ RepH fs s' p (outer header) (outer []) l /\ s_cb s' = cb
+    /\ of_name (d_file (s_data s')) = name ++ ext_data /\ of_name (ix_file (d_index (s_data s'))) = name ++ ext_index.
+Proof. exact reopen_own. Qed.
+Print Assumptions C04_reopen_own.
 
 (* the data-file half alone: Data::open_existing on a cleanly written pair of files *)
 Theorem C04_data_open : forall p fs name header cb l,
